@@ -33,27 +33,30 @@ TEXT = {'design_ref': 'DESIGN.md section 4, C04',
          'positive mark (other than the author unless it reflects to itself), at most one event per session, and the event is the filter transition rule — '
          'matched before/matches now: set, before and not now: removal, neither: nothing (`nodeChanged_exact`, `notify_exact`, `notify_exact_reach`, '
          "`invariant_primitives`); (4) the delivery twin: what `nodeChangedAux`/`pushAll` append to a session's inbox is exactly what the abstract pipe of (1) "
-         "sends (`twin_text`, `delivery_twin`), so a client's replayed mirror equals the event-by-event fold; (5) convergence from the EMPTY mirror "
-         '(`converges_changing_subs`): for a session that attaches with no subscription, any run made of its own SUBSCRIBEs of new paths (with or without '
-         'filter; the snapshot is replayed as structured Messages, `snapshot_replay`), its own unsubscribes (the client drops what no remaining subscription '
-         'matches, `applyUnsub`), and — in between — any history of other activity: SETDATA by anybody on any path (with the index flag from other sessions), '
-         'several payloads in one command, REMOVEDATA with wildcards and nested subtrees, INSERTORDEREDDATA and REORDERDATA of other sessions, quiet commands '
-         "(ping, parameters, routed Messages, other sessions' subscriptions), pushes, arrivals and departures of other sessions — ends, at every point where "
-         "nothing is pending for the session, with the client's replayed data set equal to the matching set: `MirrorOK sv' s' (client ∅ items)`, where `items` "
-         'is exactly what was delivered; per-step forms `step_mirror_set`, `step_mirror_setm`, `step_mirror_rm`, `step_mirror_detach_other`, '
-         '`step_mirror_attach_other`, `step_mirror_ins_other`, `step_mirror_subscribe_new`, `step_mirror_unsubscribe`, `story_step`; node names never contain '
-         "'/' and session nodes are named by ids below the counter in every reachable state (`names_unambiguous`, `fresh_sess_node_reach`); the engine-level "
-         'corollaries hold for every op stream whose SUBSCRIBE lines are GoodPaths (`reach_engine`, `marks_correct_engine`).  Tie: the reflector model '
+         "sends (`twin_text`, `delivery_twin`), so a client's replayed mirror equals the event-by-event fold; (5) the property theorem `converges` "
+         '(`converges_reach` for every state reached from the empty server): a session that attaches with no subscription and the EMPTY mirror, after ANY run '
+         'made of — its own SUBSCRIBEs of new paths with or without filter (snapshot replayed as structured Messages), its own re-subscriptions with another '
+         'filter, its own unsubscribes (the client drops what no remaining subscription matches), its own data, index, max-items, route and reflect-to-self '
+         'commands, and every command class of every other session (SETDATA on any path incl. several payloads in one command and the index flag, REMOVEDATA '
+         'with wildcards and nested subtrees, INSERTORDEREDDATA, REORDERDATA, parameters, subscriptions, routed Messages, pings), pushes, arrivals and '
+         'departures of other sessions — holds, at every point where nothing is pending for it, exactly the matching set: a path with a payload IFF some node '
+         'has that path, is visible to the subscriber, is matched by its CURRENT subscriptions (clauses and filter) and carries that payload NOW; and the '
+         'PR_RESULT_DATAITEMS lines it received are exactly the Messages its client consumed.  The per-step theorems (`step_mirror_set`, `_setm`, `_rm`, '
+         '`_detach_other`, `_attach_other`, `_ins_other`, `_subscribe_new`, `_refilter`, `_unsubscribe`, `own_param_step`, `own_self_step`, `story_step`, '
+         "`run3_quiescent`) are registered too, as are `getdata_visits` (GetDataCallback's traversal = the brute-force matches outside the own subtree), "
+         '`names_unambiguous`, `fresh_sess_node_reach` and the engine-level corollaries (`reach_engine`, `marks_correct_engine`).  Tie: the reflector model '
          "reproduces the real server's deliveries and per-node subscriber tables exactly on every generated history (incl. several payloads in one SETDATA, "
          "re-filtering next to overlapping subscriptions, BATCH); the direct oracle compares each client's replayed mirror with the brute-force matching set "
          '(PathMatcher::MatchesPath + QueryFilter::Matches over the in-process tree) at every quiescent point.',
- 'note': 'Partial, exactly: `converges_changing_subs` needs `SubNewOK` at each own SUBSCRIBE — discharged for sessions that reflect to themselves; for plain '
-         "sessions the traversal lemma for GetDataCallback's own-node short cut (`SnapVisits`) is an explicit hypothesis — and does not yet cover re-filtering "
-         "an existing subscription (the snapshot is delivered while the re-filter events are still pending), nor the subscriber's OWN parameter/index commands "
-         '(they change its session record).  Those are decided by correspondence + the mirror oracle.  Hypotheses: every SUBSCRIBE path is a GoodPath (no '
-         'empty clause; the two pattern-layer laws of C15); SETDATA/INSERTORDEREDDATA within MUSCLE_MAX_NODE_DEPTH (`SetOK`, `InsDepthOK`; the model has no '
-         "depth check, the code refuses deeper paths); `MirrorOK` speaks about the other sessions' nodes.  Observation (not a violation of this property): "
-         "re-filtering reports a non-reflecting session's own nodes to it although a fresh SUBSCRIBE would not.  Oracle premises: clients that used quiet "
-         'flags / disabled subscriptions / explicit GETDATA are exempt by definition of those features.  Open finding F10 (two spellings of one subscription '
-         'path) is kept out of the random stream and runs from corpus/C04/srv-known-F10.ops.  The order in which the subscribers of one node are notified '
-         'comes from a content-addressed table cache and is not modelled: max-items and multi-payload SETDATA are only used in single-subscriber cases.'}
+ 'note': 'What `converges` does NOT cover is listed in one place, the header of Props/C04.lean ("COVERAGE OF THE FINAL THEOREM"): (1) a plain session that '
+         'carries the indexing flag — its snapshots contain its own nodes by design; (2) re-filtering by a plain session when one of its OWN nodes newly '
+         'passes the filter — the server then reports that own node although a fresh SUBSCRIBE would not (`exOwn` is the counter-example in the model; the '
+         "real ChangeQueryFilterCallback behaves the same; harmless for the other sessions' nodes the property is about, recorded as an observation); (3) "
+         "setting reflect-to-self while subscriptions are held (no snapshot is sent at that moment); (4) the subscriber's own departure; (5) paths that are "
+         "not GoodPaths (empty clause, or outside C15's pattern laws), SETDATA / INSERTORDEREDDATA beyond MUSCLE_MAX_NODE_DEPTH (the model has no depth check, "
+         "the code refuses them), host names containing '/'; (6) the engine's clone/save/restore/trees ops; (7) a start with subscriptions already held "
+         '(`run3_quiescent` covers it when the mirror is right at the start).  Those and everything else are still decided by correspondence + the mirror '
+         'oracle.  Oracle premises: clients that used quiet flags / disabled subscriptions / explicit GETDATA are exempt by definition of those features.  '
+         'Open finding F10 (two spellings of one subscription path) is kept out of the random stream and runs from corpus/C04/srv-known-F10.ops.  The order in '
+         'which the subscribers of one node are notified comes from a content-addressed table cache and is not modelled: max-items and multi-payload SETDATA '
+         'are only used in single-subscriber cases.'}
